@@ -104,8 +104,18 @@ func vConcretize(x int) int          { return x }
 func vConcretizeStr(s string) string { return s }
 func vReplaying() bool               { return true }
 func vNote(k, v string)              { vRT.notes[k] = v }
-func vOutputs() int                  { return 0 }
 func vGlobalWrites() int             { return 0 }
+
+// bytes written to stdout/stderr since the runner started capturing (native); number of
+// output effects (engine)
+func vOutputs() int {
+	if vOutputProbe != nil {
+		return vOutputProbe()
+	}
+	return 0
+}
+
+var vOutputProbe func() int
 
 func vAtoi(s string) int {
 	n, err := strconv.Atoi(s)
@@ -116,3 +126,26 @@ func vAtoi(s string) int {
 }
 
 func vItoa(n int) string { return strconv.Itoa(n) }
+
+func vIteStr(c bool, a, b string) string {
+	if c {
+		return a
+	}
+	return b
+}
+func vShow(s string) string { return strconv.Quote(s) }
+
+func vShowList(l []string) string {
+	s := "["
+	for i, x := range l {
+		if i > 0 {
+			s += ", "
+		}
+		s += strconv.Quote(x)
+	}
+	return s + "]"
+}
+
+func vIsDigitConc(b byte) bool    { return b >= '0' && b <= '9' }
+func vIsQuoteConc(b byte) bool    { return b == '\'' }
+func vStrEqConc(a, b string) bool { return a == b }
